@@ -830,7 +830,20 @@ RuneTrees == {<<a>> : a \in EscRunes}
              \cup {<<a, Lit("i", n), BinT(o)>> : a \in EscRunes, n \in {1, 255}, o \in {"+", "==", "<", "<<", "&"}}
              \cup {<<a, ConvT(k)>> : a \in EscRunes, k \in {"uint8", "int8", "int32", "string", "float64"}}
              \cup {<<a, ArrLenT>> : a \in {Lit("rx", 128), Lit("ro", 255)}}
-InitUse    == case \in UseCasesAll(Lits) \cup {ExprCase(t) : t \in HugeTrees \cup RuneTrees} /\ res = Pending
+\* the minimum of a signed type against -1: T(min) / -1 and T(min) * -1 are the constant 2^(w-1), which T cannot hold
+\* (the only quotient of two values of T that overflows T); T(min) % -1 is 0; -T(min) overflows. The divisor typed or
+\* not, on either side of the product. (int64 and int are left out of the QUOTIENT: go/constant computes
+\* MinInt64 / -1 in int64 arithmetic, which wraps around, and the toolchain accepts it - its quirk, not the language's.)
+MinOf(k) == <<Lit("p", Width(k) - 1), UnT("-"), ConvT(k)>>
+MinQuoTrees ==
+       UNION {{MinOf(k) \o <<Lit("i", -1), BinT(o)>>, MinOf(k) \o <<Lit("i", -1), ConvT(k), BinT(o)>>,
+               MinOf(k) \o <<Lit("i", 1), BinT(o)>>, MinOf(k) \o <<Lit("i", 2), BinT(o)>>} :
+                  k \in {"int8", "int16", "int32"}, o \in {"/", "%"}}
+  \cup UNION {{MinOf(k) \o <<Lit("i", -1), BinT("*")>>, <<Lit("i", -1)>> \o MinOf(k) \o <<BinT("*")>>,
+               MinOf(k) \o <<Lit("i", -1), ConvT(k), BinT("*")>>, MinOf(k) \o <<UnT("-")>>,
+               MinOf(k) \o <<Lit("i", 1), BinT("-")>>} :
+                  k \in {"int8", "int16", "int32", "int64"}}
+InitUse    == case \in UseCasesAll(Lits) \cup {ExprCase(t) : t \in HugeTrees \cup RuneTrees \cup MinQuoTrees} /\ res = Pending
 InitBlocks == case \in BlockCases(Lits) /\ res = Pending
 Decide     == res.st = "?" /\ res' = Verdict(case) /\ UNCHANGED case
 
